@@ -60,16 +60,24 @@ PREFIX_ALTERNATIONS = ["a|ab", "ab|a", "=|==", "[a-z]+|if", "if|[a-z]+", "a|ab|a
 FP_V = """(* GENERATED: the direct route's syntax tree, its nullable / firstpos / lastpos / followpos and its automaton, as dumped from
    internal/regex/parser/ast, against the model of Reg/Followpos.v (positions one-based as in the implementation) *)
 From Coq Require Import List Bool NArith.
-From Verif Require Import Base.CharSet Reg.Dfa Reg.Regex Reg.EquivCheck Reg.Followpos Reg.FollowposRe Reg.MaxMunch.
+From Verif Require Import Base.CharSet Reg.Dfa Reg.Regex Reg.EquivCheck Reg.Followpos Reg.FollowposRe Reg.FollowposQuant Reg.FollowposPat Reg.MaxMunch.
+From Verif Require Import Reg.Pattern Reg.PatSem Reg.PatCheck.
+From VerifGen Require Import RuneGo.
 Import ListNotations.
 Local Open Scope N_scope.
-Definition fp_case := (node * N * bool * list nat * list nat * list (nat * list nat) * (dfa * list N))%%type.
-(* 1: the end marker occurs in the tree; 2: a table differs from the model; 3: the automaton is not the position automaton *)
+Definition fp_case := (list N * node * N * bool * list nat * list nat * list (nat * list nat) * (dfa * list N))%%type.
+Definition model := PatCheck.model escaped ascii_names uni_cats cls_letters rune_classes.
+(* 1: the end marker occurs in the tree; 2: a table differs from the model; 3: the automaton is not the position automaton;
+   4: the tree is not the tree of the pattern (model of the parser and of the mappers, modulo nesting and order of alternatives) *)
 Definition verdict (c : fp_case) : N :=
-  let '(r, em, nul, f, l, fol, (d, fin)) := c in
+  let '(p, r, em, nul, f, l, fol, (d, fin)) := c in
   if existsb (N.eqb em) (chars r) then 1
   else if negb (tables_agree r em nul f l fol) then 2
-  else if negb (dfa_re_check d fin (re_of r) (N.to_nat 100000)) then 3 else 0.
+  else if negb (dfa_re_check d fin (re_of r) (N.to_nat 100000)) then 3
+  else match model p with
+       | MOk t _ => if same_tree (tree_of (ast_regex rune_classes t)) r then 0 else 4
+       | _ => 4
+       end.
 Definition agrees (c : fp_case) : bool := verdict c =? 0.
 Definition cases : list fp_case := [
 %s
@@ -104,7 +112,7 @@ def fp_positions(t, acc):
     return acc
 
 
-def fp_case(a):
+def fp_case(a, pattern=""):
     """Coq term for one dump of the direct route; None with a reason if the dump is not a tree numbered left to right."""
     tree = a["tree"]
     if not (tree[0] == "cat" and len(tree) == 3 and tree[2][0] == "char" and tree[2][1] == a["end_marker"]):
@@ -117,7 +125,7 @@ def fp_case(a):
     d = a["dfa"]
     dfa = "({| d_start := %d; d_edges := [%s] |}, [%s])" % (d["start"], "; ".join("(%d,%d,%d,%d)" % tuple(e) for e in d["trans"]),
                                                           "; ".join(str(x) for x in d["finals"]))
-    return "(%s, %d, %s, %s, %s, %s, %s)" % (fp_node(tree[1]), a["end_marker"], "true" if a["nullable"] else "false",
+    return "(%s, %s, %d, %s, %s, %s, %s, %s)" % (R.nl(C.codepoints(pattern)), fp_node(tree[1]), a["end_marker"], "true" if a["nullable"] else "false",
                                              nat(a["first"]), nat(a["last"]), fol, dfa), None
 
 
@@ -166,7 +174,8 @@ def check(tier):
     ok, log = C.coq_make(["theories/Props/C10.vo"])
     for t in ["three_way_agreement", "three_way_agreement_guarded", "position_automaton_examples", "position_automaton_accepts_exactly_the_language",
               "tree_language_is_its_expression", "checked_automaton_is_the_position_automaton_of_its_tree", "followpos_example",
-              "quantified_tree_denotes_the_documented_repetition", "quantify_example"]:
+              "quantified_tree_denotes_the_documented_repetition", "quantify_example", "tree_of_a_pattern_denotes_its_documented_meaning",
+              "direct_route_is_the_documented_meaning_of_the_pattern"]:
         rep.obligation("Props/C10.v: " + t, ok)
     rep.cov["print_assumptions"] = "Closed under the global context x%d" % log.count("Closed under the global context") if ok else "n/a"
 
@@ -199,7 +208,7 @@ def check(tier):
         a = r.get("ast", {})
         if r.get("outcome") != "ok" or a.get("outcome") != "ok" or a.get("positions", 0) > 160:
             continue
-        term, why = fp_case(a)
+        term, why = fp_case(a, p)
         if term is None:
             fp_shape.append((p, why))
             continue
@@ -276,9 +285,11 @@ def check(tier):
         rep.obligation("direct-route cases compile", False)
         rep.violation("cases", {"theorem": "gen/cases_C10fp_*.v does not compile", "log": fp_err[-3000:]}, no_input=True)
     else:
-        rep.obligation("direct route: tree numbered left to right, nullable / firstpos / lastpos / followpos == model, automaton == position automaton "
-                       "of the tree (certified) on %d trees" % len(fp_cases), not fp_bad and not fp_shape)
-    if q_bad is None:
+        rep.obligation("direct route: tree numbered left to right and == the model's tree of the pattern, nullable / firstpos / lastpos / followpos == model, "
+                       "automaton == position automaton of the tree (certified) on %d trees" % len(fp_cases), not fp_bad and not fp_shape)
+    if q_bad is None and not qok and not qout.strip():
+        dist["quantified_trees_undecided_slow"] = len(q_cases)      # the kernel did not finish within the time limit: undecided, not a failure
+    elif q_bad is None:
         rep.obligation("quantifier cases compile", False)
         rep.violation("cases", {"theorem": "gen/cases_C10q.v does not compile", "log": qout[-3000:]}, no_input=True)
     else:
